@@ -291,3 +291,160 @@ func keyBuilders(p *Prog, pkgs map[string]bool) []*eqFunc {
 	}
 	return out
 }
+
+// ruleMapComparisonSymmetric: R-EQm.  A loop that walks the keys of map A and
+// looks the key up in map B of the same type without the comma-ok form treats
+// a key missing in B like a key with the zero value; the comparison is only
+// sound behind a check that both maps have the same key set.
+func ruleMapComparisonSymmetric(p *Prog, r *Report, pkgs map[string]bool, floor int) {
+	r.rule("R-EQm", "Map comparisons are symmetric: wherever a function of this property's packages looks up, without comma-ok, a key taken from the keys of map A in another map B of the same type, a call of the key-set helper checkExtra on exactly A and B dominates the lookup and its result decides over a return; checkExtra itself applies its one-directional closure in both argument orders. (Otherwise an option that exists on one side only, or whose value is empty, goes unnoticed: 'no change' for a device that differs.)")
+	n := 0
+	for _, fn := range allModFuncs(p) {
+		if fn.Synthetic != "" || !pkgs[pkgOfFunc(fn)] {
+			continue
+		}
+		for _, b := range fn.Blocks {
+			for _, in := range b.Instrs {
+				lk, ok := in.(*ssa.Lookup)
+				if !ok || lk.CommaOk {
+					continue
+				}
+				mt, isMap := lk.X.Type().Underlying().(*types.Map)
+				if !isMap {
+					continue
+				}
+				// the key comes from the keys of another map of the same type
+				var other ssa.Value
+				for _, rt := range keyOrigins(lk.Index) {
+					if !types.Identical(rt.Type().Underlying(), mt) || sameSlice(rt, lk.X) {
+						continue
+					}
+					other = rt
+				}
+				if other == nil {
+					continue
+				}
+				// a missing key is handled explicitly when the (nillable) result is tested for nil
+				nilTested := false
+				for _, ref := range *lk.Referrers() {
+					if bo, ok := ref.(*ssa.BinOp); ok && (isNilConst(bo.X) || isNilConst(bo.Y)) {
+						nilTested = true
+					}
+				}
+				if nilTested {
+					continue
+				}
+				n++
+				okDom := false
+				for _, cs := range callsOf(fn) {
+					name := cs.calleeName()
+					if i := strings.Index(name, "["); i >= 0 {
+						name = name[:i]
+					}
+					if !strings.HasSuffix(name, ".checkExtra") || cs.In.Value() == nil || !idom(cs.In, lk) {
+						continue
+					}
+					args := cs.In.Common().Args
+					if len(args) != 2 {
+						continue
+					}
+					if !(sameSlice(args[0], other) && sameSlice(args[1], lk.X) || sameSlice(args[1], other) && sameSlice(args[0], lk.X)) {
+						continue
+					}
+					// result decides over a return
+					t := taintFrom(fn, []ssa.Value{cs.In.Value()})
+					for _, bb := range fn.Blocks {
+						if i := ifOf(bb); i != nil && t[i.Cond] {
+							for k := range bb.Succs {
+								if _, isRet := bb.Succs[k].Instrs[len(bb.Succs[k].Instrs)-1].(*ssa.Return); isRet {
+									okDom = true
+								}
+							}
+						}
+					}
+				}
+				r.add("R-EQm", "symmetric-lookup|"+fnDisplay(fn)+"|"+descValue(lk.X, 0), p.ipos(lk), "lookup of a key of one map in the other map is preceded by the key-set check of exactly these two maps", okDom,
+					"keys that exist on one side only (or carry an empty value) are not noticed: the two maps compare equal although they differ")
+			}
+		}
+	}
+	r.floor("R-EQm", "cross lookups between two maps of one type", n, floor)
+	// checkExtra applies its closure in both orders
+	for _, fn := range allModFuncs(p) {
+		base := shortName(fn)
+		if i := strings.Index(base, "["); i >= 0 {
+			base = base[:i]
+		}
+		if !pkgs[pkgOfFunc(fn)] || !strings.HasSuffix(base, ".checkExtra") || fn.Parent() != nil || len(fn.Params) != 2 {
+			continue
+		}
+		ab, ba := false, false
+		for _, cs := range callsOf(fn) {
+			args := cs.In.Common().Args
+			if len(args) == 2 {
+				if args[0] == ssa.Value(fn.Params[0]) && args[1] == ssa.Value(fn.Params[1]) {
+					ab = true
+				}
+				if args[0] == ssa.Value(fn.Params[1]) && args[1] == ssa.Value(fn.Params[0]) {
+					ba = true
+				}
+			}
+		}
+		r.add("R-EQm", "checkExtra-both-directions|"+base, p.pos(fn.Pos()), "checkExtra looks for extra keys in both directions", ab && ba, "the key-set check is one-directional")
+		break // instantiations share the body
+	}
+}
+
+// keyOrigins: maps whose key set a value is drawn from: range over the map,
+// or range over slices.Sorted(maps.Keys(m)) / maps.Keys(m).
+func keyOrigins(v ssa.Value) []ssa.Value {
+	var out []ssa.Value
+	seen := map[ssa.Value]bool{}
+	var walk func(x ssa.Value, d int)
+	walk = func(x ssa.Value, d int) {
+		if x == nil || seen[x] || d > 8 {
+			return
+		}
+		seen[x] = true
+		switch y := x.(type) {
+		case *ssa.Extract:
+			walk(y.Tuple, d+1)
+		case *ssa.Next:
+			walk(y.Iter, d+1)
+		case *ssa.Range:
+			if _, ok := y.X.Type().Underlying().(*types.Map); ok {
+				out = append(out, y.X)
+			}
+		case *ssa.UnOp:
+			walk(y.X, d+1)
+		case *ssa.IndexAddr:
+			walk(y.X, d+1)
+		case *ssa.Index:
+			walk(y.X, d+1)
+		case *ssa.Phi:
+			for _, e := range y.Edges {
+				walk(e, d+1)
+			}
+		case *ssa.Call:
+			name := ""
+			if f := y.Common().StaticCallee(); f != nil {
+				name = shortName(f)
+				if i := strings.Index(name, "["); i >= 0 {
+					name = name[:i]
+				}
+			}
+			switch name {
+			case "slices.Sorted", "slices.Collect", "maps.Keys":
+				for _, a := range y.Common().Args {
+					if _, ok := a.Type().Underlying().(*types.Map); ok {
+						out = append(out, a)
+					} else {
+						walk(a, d+1)
+					}
+				}
+			}
+		}
+	}
+	walk(v, 0)
+	return out
+}
